@@ -9,7 +9,12 @@ use std::sync::Mutex;
 use std::time::Instant;
 
 use heed::types::Bytes;
-use heed::{Env, EnvOpenOptions, PutFlags, RoTxn, RwTxn};
+use heed::{EnvOpenOptions, PutFlags, RoTxn, RwTxn};
+
+/// Every scratch environment is opened with MDB_NOTLS: read transactions are tied to their
+/// `RoTxn` object, not to thread-local storage, so no LMDB thread-exit destructor can run
+/// against an environment that has been closed meanwhile.
+pub type Env = heed::Env<heed::WithoutTls>;
 use serde_json::{json, Map, Value};
 
 pub type RawDb = heed::Database<Bytes, Bytes>;
@@ -190,7 +195,7 @@ impl Scratch {
 
     pub fn open_dir(dir: PathBuf, map_size: usize, keep: bool) -> Result<Scratch, heed::Error> {
         let env =
-            unsafe { EnvOpenOptions::new().map_size(map_size).max_readers(2048).open(&dir) }?;
+            unsafe { EnvOpenOptions::new().read_txn_without_tls().map_size(map_size).max_readers(2048).open(&dir) }?;
         let mut wtxn = env.write_txn()?;
         let db: RawDb = env.create_database(&mut wtxn, None)?;
         wtxn.commit()?;
